@@ -154,7 +154,9 @@ var textAlphabet = []string{"a", "b", "Z", "1", "0", ".", "-", "+", "e", " ", " 
 // numerals in spellings other than the canonical one, long digit runs, fragments of JSON or of a richer condition syntax,
 // paths and URLs. A decoder, encoder or wrapper that "also accepts" one of these notations must not find it inside data.
 var lookalikes = []string{"Infinity", "-Infinity", "NaN", "null", "nil", "undefined", "true", "1.0", "1e3", "0x10", "-0", "4111111111111111", "12345678901234567890",
-	">5", "~a", "{\"x\": -Infinity}", "ratio:NaN", "limits [Infinity, 0]", "k: null", "a,true", "x, NaN", "http://x/y", "</script>", "C:\\Users\\me", "a\\", "@type", "$ref", "2023", "<![CDATA[x]]>"}
+	">5", "~a", "{\"x\": -Infinity}", "ratio:NaN", "limits [Infinity, 0]", "k: null", "a,true", "x, NaN", "http://x/y", "</script>", "C:\\Users\\me", "a\\", "@type", "$ref", "2023", "<![CDATA[x]]>",
+	// what fmt prints for values that are not strings
+	"<nil>", "map[]", "[]", "%!s(<nil>)", "&{}", "-0"}
 
 func genText(t *rapid.T, label string) string {
 	if rapid.IntRange(0, 9).Draw(t, label+"look") == 0 {
@@ -206,7 +208,25 @@ func (g XGen) nonBlank(s string) bool {
 	return strings.Trim(s, set) != ""
 }
 
+// wellKnownAttrs: attribute names (and values) that mean something in a format built on XML - schema instance
+// attributes, Rails/SOAP type hints, namespace declarations with a query string, HTML attributes. To the library they are
+// attributes like any other.
+var wellKnownAttrs = []XAttr{
+	{Local: "type", Value: "string"}, {Local: "type", Value: "integer"}, {Prefix: "xsi", Local: "type", Value: "xs:string"},
+	{Local: "nil", Value: "true"}, {Prefix: "xsi", Local: "nil", Value: "true"}, {Local: "null", Value: "true"},
+	{Prefix: "xmlns", Local: "q", Value: "http://example.com/ns?a=1&b=2"}, {Local: "href", Value: "http://x/y?a=1&b=2"},
+	{Local: "id", Value: "7"}, {Local: "class", Value: "a b"}, {Local: "lang", Value: "en"}, {Local: "length", Value: "3"},
+	{Prefix: "xml", Local: "base", Value: "http://x/"}, {Local: "encoding", Value: "ISO-8859-1"}, {Local: "version", Value: "1.0"},
+}
+
+// longName returns a name of n bytes ("N" followed by letters): together with a prefix and the colon, names of 28 to 40
+// bytes sit on both sides of 32.
+func longName(n int) string { return "N" + strings.Repeat("ame", n)[:n-1] }
+
 func (g XGen) genAttrs(t *rapid.T, e *XElem) {
+	if rapid.IntRange(0, 39).Draw(t, "longelem") == 13 {
+		e.Local = longName(rapid.IntRange(24, 40).Draw(t, "elemlen"))
+	}
 	na := rapid.IntRange(0, 3).Draw(t, "nattrs")
 	many := g.Wide && rapid.IntRange(0, 99).Draw(t, "manyattrs") == 0
 	if many {
@@ -220,6 +240,14 @@ func (g XGen) genAttrs(t *rapid.T, e *XElem) {
 		}
 		if rapid.IntRange(0, 9).Draw(t, "emptyattr") == 0 {
 			a.Value = "" // an attribute may be empty, element text never reaches the Map empty
+		}
+		if !many && rapid.IntRange(0, 11).Draw(t, "wellknown") == 5 {
+			a = rapid.SampledFrom(wellKnownAttrs).Draw(t, "wka")
+			if a.Prefix != "" && a.Prefix != "xml" && !g.Namespaces {
+				a.Prefix = ""
+			}
+		} else if !many && rapid.IntRange(0, 59).Draw(t, "longattr") == 31 {
+			a.Local = longName(rapid.IntRange(24, 40).Draw(t, "attrlen"))
 		}
 		if g.Namespaces {
 			switch rapid.IntRange(0, 9).Draw(t, "akind") {
@@ -464,7 +492,7 @@ func refDecode(e *XElem, o Opts) (string, interface{}) {
 
 var castTexts = []string{
 	"0", "", "1", "-1", "+1", "42", "007", "9223372036854775807", "-9223372036854775808", "9223372036854775808", "18446744073709551615", "18446744073709551616",
-	"1.0", "1.5", "-0.5", ".5", "5.", "1e3", "1E3", "1e-3", "1E400", "-1e400", "0x1p-2", "0x10", "1_0", "1_000.5", "0b1", "0o7",
+	"-0", "-0.0", "0.0", "+0", "1.0", "1.5", "-0.5", ".5", "5.", "1e3", "1E3", "1e-3", "1E400", "-1e400", "0x1p-2", "0x10", "1_0", "1_000.5", "0b1", "0o7",
 	"NaN", "nan", "NAN", "nAn", "+NaN", "-nan", "Inf", "inf", "INF", "+Inf", "+inf", "-Inf", "-INF", "Infinity", "infinity", "INFINITY", "+Infinity", "-infinity", "+INFINITY", "infinit", "in", "na",
 	"t", "T", "true", "TRUE", "True", "f", "F", "false", "FALSE", "False", "tRuE", "yes", "no", "tr", "falsee", "truee", "fals",
 	"x", "hello world", "1 2", "1a", "a1", "-", "+", ".", "e", "1e", "--1", "é", "世", "true false",
